@@ -4,10 +4,13 @@ import (
 	"fmt"
 	"os"
 	"runtime"
+	"strconv"
+	"strings"
 	"time"
 
 	"github.com/bluenviron/gohlslib/v2"
 	"github.com/bluenviron/gohlslib/v2/pkg/codecs"
+	"github.com/bluenviron/mediacommon/v2/pkg/codecs/mpeg4audio"
 
 	"verif/internal/ev"
 	"verif/internal/media"
@@ -25,7 +28,8 @@ import (
 //	bytes:   growth <= heapSlackBytes although rotations x segment payload is many times that
 //	objects: growth of the number of live objects between the half-way checkpoint and the end is
 //	         at most one object per two rotations of that interval (a retained struct per
-//	         segment or per part is at least one object per rotation)
+//	         segment or per part is at least one object per rotation); histories of >= 2400
+//	         rotations only (thorough tier)
 //
 // Verdicts depend on allocation counts, not on time.
 const heapSlackBytes = 3 << 20
@@ -135,9 +139,13 @@ func heapHistory(hc heapCase, rotations int, frameSize int, seed int64) (pts [3]
 }
 
 func heapProbe(rep *ev.Reporter, tier string, seed int64, stats oracle.Stats) {
+	limitProbe(rep, tier, seed, stats)
 	rot, frame := 400, 12<<10
 	if tier == "thorough" {
 		rot = 3000
+	}
+	if v, err := strconv.Atoi(os.Getenv("C18_HEAPROT")); err == nil && v > 0 {
+		rot = v // development aid
 	}
 	cases := []heapCase{
 		{gohlslib.MuxerVariantMPEGTS, false, false},
@@ -167,9 +175,141 @@ func heapProbe(rep *ev.Reporter, tier string, seed int64, stats oracle.Stats) {
 				hc, dBytes>>10, rot, payload>>20), ref)
 		}
 		interval := int64(rot) / 2
-		if dObj > interval/2 {
+		// (the count fluctuates by about +-200 whatever the length: queued parts, playlist caches,
+		// timers; the clause is applied only where one object per two rotations is well above that)
+		if interval >= 1200 && dObj > interval/2 {
 			rep.Report("C18/heap-objects/"+hc.String(), fmt.Sprintf("%s: the number of live heap objects grew by %d over the second half of the history (%d rotations): something is retained per rotation",
 				hc, dObj, interval), ref)
+		}
+	}
+}
+
+// ---- SegmentMaxSize at the exact boundary
+//
+// "No published segment holds more than SegmentMaxSize bytes of media payload; the Write that would
+// exceed the limit returns an error": a segment of exactly SegmentMaxSize bytes does not exceed it.
+// One track whose every write carries exactly S bytes of media (an Opus packet, an AAC access unit,
+// an H264 access unit in MPEG-TS where the payload is the NAL units as given), a segment that never
+// rotates (SegmentMinDuration far beyond the history), and three limits around k x S:
+//
+//	limit k*S-1   -> the first failing write is w
+//	limit k*S     -> must be w+1 (one more sample fits exactly)
+//	limit k*S+S-1 -> must be w+1 too (the next one still does not fit)
+//
+// The comparison is between runs, so nothing is assumed about how many samples the muxer holds back
+// before it accounts for them.
+type limitCase struct {
+	variant gohlslib.MuxerVariant
+	codec   string
+}
+
+func (lc limitCase) String() string {
+	return map[gohlslib.MuxerVariant]string{gohlslib.MuxerVariantMPEGTS: "mpegts", gohlslib.MuxerVariantFMP4: "fmp4", gohlslib.MuxerVariantLowLatency: "lowLatency"}[lc.variant] + "/" + lc.codec
+}
+
+// firstFailingWrite returns the index of the first write that returns an error (-1: none in n writes).
+func firstFailingWrite(lc limitCase, s int, limit uint64, n int) (int, string, error) {
+	var tr *gohlslib.Track
+	switch lc.codec {
+	case "opus":
+		tr = &gohlslib.Track{Codec: &codecs.Opus{ChannelCount: 2}, ClockRate: 48000}
+	case "aac":
+		tr = &gohlslib.Track{Codec: &codecs.MPEG4Audio{Config: mpeg4audio.AudioSpecificConfig{Type: 2, SampleRate: 44100, ChannelCount: 2}}, ClockRate: 44100}
+	case "h264":
+		tr = &gohlslib.Track{Codec: &codecs.H264{SPS: media.H264SPSVectors[0], PPS: media.H264PPS[0]}, ClockRate: 90000}
+	}
+	segCount := 3
+	if lc.variant == gohlslib.MuxerVariantLowLatency {
+		segCount = 7
+	}
+	m := &gohlslib.Muxer{
+		Variant: lc.variant, SegmentCount: segCount, SegmentMinDuration: time.Hour, PartMinDuration: 200 * time.Millisecond,
+		SegmentMaxSize: limit, Tracks: []*gohlslib.Track{tr},
+	}
+	if err := m.Start(); err != nil {
+		return 0, "", err
+	}
+	defer m.Close()
+	ntp := time.Date(2024, 3, 1, 10, 0, 0, 0, time.UTC)
+	for i := 0; i < n; i++ {
+		var err error
+		switch lc.codec {
+		case "opus":
+			pk := make([]byte, s)
+			pk[0] = 0xfc // CELT fullband, 20 ms, stereo, one frame
+			err = m.WriteOpus(tr, ntp.Add(time.Duration(i)*20*time.Millisecond), int64(i)*960, [][]byte{pk})
+		case "aac":
+			au := make([]byte, s)
+			au[0] = 0x21
+			err = m.WriteMPEG4Audio(tr, ntp.Add(time.Duration(i)*1024*time.Second/44100), int64(i)*1024, [][]byte{au})
+		case "h264":
+			var au [][]byte
+			if i == 0 {
+				sps, pps := media.H264SPSVectors[0], media.H264PPS[0]
+				nalu := make([]byte, s-len(sps)-len(pps))
+				nalu[0] = 0x65
+				au = [][]byte{sps, pps, nalu}
+			} else {
+				nalu := make([]byte, s)
+				nalu[0] = 0x41
+				au = [][]byte{nalu}
+			}
+			err = m.WriteH264(tr, ntp.Add(time.Duration(i)*40*time.Millisecond), int64(i)*3600, au)
+		}
+		if err != nil {
+			return i, err.Error(), nil
+		}
+	}
+	return -1, "", nil
+}
+
+func limitProbe(rep *ev.Reporter, tier string, seed int64, stats oracle.Stats) {
+	cases := []limitCase{
+		{gohlslib.MuxerVariantMPEGTS, "h264"},
+		{gohlslib.MuxerVariantMPEGTS, "aac"},
+		{gohlslib.MuxerVariantFMP4, "aac"},
+		{gohlslib.MuxerVariantFMP4, "opus"},
+		{gohlslib.MuxerVariantLowLatency, "opus"},
+		{gohlslib.MuxerVariantLowLatency, "aac"},
+	}
+	reps := 4
+	if tier == "thorough" {
+		reps = 40
+	}
+	for ci, lc := range cases {
+		for r := 0; r < reps; r++ {
+			h := uint64(seed)*2654435761 + uint64(ci)*40503 + uint64(r)*9176
+			s := 64 + int(h%400)
+			k := 2 + int((h/400)%30)
+			ref := caseRef{"C18", seed, -(100 + ci*100 + r), tier}
+			var w [3]int
+			bad := false
+			for j, limit := range []uint64{uint64(k*s - 1), uint64(k * s), uint64(k*s + s - 1)} {
+				idx, msg, err := firstFailingWrite(lc, s, limit, k+8)
+				if err != nil {
+					fmt.Printf("HARNESS: limit history %s: %v\n", lc, err)
+					bad = true
+					break
+				}
+				if idx >= 0 && !strings.Contains(msg, "maximum segment size") {
+					rep.Report("C18/limit-boundary/other-error", fmt.Sprintf("%s: write %d of %d-byte samples failed with %q (limit %d)", lc, idx, s, msg, limit), ref)
+					bad = true
+					break
+				}
+				w[j] = idx
+			}
+			if bad {
+				continue
+			}
+			stats["C18.limit_boundaries_checked"]++
+			switch {
+			case w[0] < 0 || w[1] < 0 || w[2] < 0:
+				rep.Report("C18/limit-boundary/no-error/"+lc.String(), fmt.Sprintf("%s: %d writes of %d bytes each went through with SegmentMaxSize around %d x %d and a segment that never rotates (first failing writes %v)", lc, k+8, s, k, s, w), ref)
+			case w[1] != w[0]+1:
+				rep.Report("C18/limit-boundary/exact-fit/"+lc.String(), fmt.Sprintf("%s: samples of %d bytes, SegmentMaxSize %d -> first failing write %d, SegmentMaxSize %d (= %d samples exactly) -> first failing write %d: a segment of exactly SegmentMaxSize bytes does not exceed the limit, one more sample must fit", lc, s, k*s-1, w[0], k*s, k, w[1]), ref)
+			case w[2] != w[1]:
+				rep.Report("C18/limit-boundary/overshoot/"+lc.String(), fmt.Sprintf("%s: samples of %d bytes, SegmentMaxSize %d -> first failing write %d, SegmentMaxSize %d (one byte short of %d samples) -> first failing write %d: a sample that does not fit was accepted", lc, s, k*s, w[1], k*s+s-1, k+1, w[2]), ref)
+			}
 		}
 	}
 }
